@@ -170,7 +170,10 @@ def main():
             t = int(rng.choice(tods + [int(rng.integers(0, US_PER_DAY))]))
             stamps.append(datetime(y, m, dd) + timedelta(microseconds=t))
         stamps = sorted(set(stamps))
-        tix = pd.DatetimeIndex(stamps)
+        # the time coordinate in every resolution pandas offers (coarser units truncate the instants; the expectation follows)
+        unit = ["ns", "us", "ms", "s"][rep % 4]
+        tix = pd.DatetimeIndex(stamps).as_unit(unit).unique()
+        stamps = [pd.Timestamp(v).to_pydatetime() for v in tix]
         da = xr.DataArray(np.zeros(len(stamps)), dims=("time",), coords={"time": tix})
         acc = da.time.dekad
         got = dict(idx=acc.idx.values.tolist(), yidx=acc.yidx.values.tolist(), ndays=acc.ndays.values.tolist(),
